@@ -179,6 +179,36 @@ def h_no_units(d: bool):
         return finish(False, 'raised:%s instead of the input-data error' % type(e).__name__)
 
 
+def h_load_twice(d: bool):
+    """
+    post: _[0]
+    """
+    begin()
+    # two files in one process whose units blocks declare DIFFERENT defaults: the second must be read with its own units
+    _install()
+    i1, i2 = choose('ie1', len(E_UNITS)), choose('ie2', len(E_UNITS))
+    j1, j2 = choose('is1', len(S_UNITS)), choose('is2', len(S_UNITS))
+    h, s_ = R('h'), R('s')
+    got = []
+    try:
+        for ie, is_ in ((i1, j1), (i2, j2)):
+            (eu, ef), (su, sf) = E_UNITS[ie], S_UNITS[is_]
+            tree = {'T_ref': 298.15, 'H_ref': h / ef, 'S_ref': s_ / sf}
+            units = {'molar enthalpy': eu, 'molar entropy': su, 'molar heat capacity': su, 'temperature': 'K'}
+            c = yio.load({'thermochem': tree}, {'units': units}, loader=_loader)['thermochem']
+            got.append(c)
+    except Exception as e:
+        return finish(False, 'raised:' + type(e).__name__)
+    pairs, labels = [], []
+    for k, c in enumerate(got):
+        if not (_is_plain(c.ND_H_ref) and _is_plain(c.ND_S_ref)):
+            return finish(False, 'load_units: quantity instead of plain number')
+        pairs += [(c.ND_H_ref, h / (RGAS * 298.15)), (c.ND_S_ref, s_ / RGAS)]
+        labels += ['H of file %d' % (k + 1), 'S of file %d' % (k + 1)]
+    ok, lab = all_close(pairs, labels)
+    return finish(ok, 'ok' if ok else 'load_twice: %s depends on the units of a file loaded earlier' % lab)
+
+
 def signature(ob, param, ret):
     st = str(ret[1]) if len(ret) > 1 else ''
     if 'zero' in st or 'quantity with units' in st:
@@ -201,6 +231,8 @@ def obligations(tier, seed):
             if mode == 'nd':
                 break
     obs.append(dict(name='no_units', func='h_no_units', param={}, timeout=to))
+    for ie1 in range(len(E_UNITS)):
+        obs.append(dict(name='load_twice_e%d' % ie1, func='h_load_twice', param=dict(fix=dict(ie1=ie1)), timeout=to))
     return obs
 
 
